@@ -25,9 +25,10 @@ MIN_DISTINCT = {"quick": 100, "thorough": 5000}
 
 WAIT = 5      # wall-clock bound on waiting for one response; its firing alone is never the verdict (the ledger is)
 OUTCOMES = ["value", "value", "ref", "exc", "unenc_bigint", "unenc_deep", "surrogate", "exc_unenc_args", "exc_custom",
-            "exc_unformattable", "nested", "nested_exc", "bad_localref", "bad_label", "bad_arity", "bad_handler", "stopiter"]
+            "exc_unformattable", "nested", "nested_exc", "bad_localref", "bad_label", "bad_arity", "bad_handler", "stopiter",
+            "exc_base", "exc_base_custom"]
 ANOMALOUS = {"exc_unformattable", "unenc_bigint", "unenc_deep", "exc_unenc_args", "bad_localref", "bad_label", "bad_arity", "bad_handler",
-             "surrogate", "nested", "nested_exc"}
+             "surrogate", "nested", "nested_exc", "exc_base", "exc_base_custom"}
 
 
 def make_service(log):
@@ -35,6 +36,9 @@ def make_service(log):
 
     class Weird(Exception):
         pass
+
+    class Abort(BaseException):
+        """an application's own 'unwind everything' signal"""
 
     class Svc(rpyc.Service):
         def exposed_work(self, token, outcome, cb=None, depth=0):
@@ -62,6 +66,10 @@ def make_service(log):
                 raise IndentationError((1, token), "b  abb")      # the interpreter's own traceback formatter raises on this
             if outcome == "exc_custom":
                 raise Weird(token)
+            if outcome == "exc_base":
+                raise GeneratorExit(token)            # a failure that is not an Exception subclass (as CancelledError is)
+            if outcome == "exc_base_custom":
+                raise Abort(token)
             if outcome in ("nested", "nested_exc"):
                 if depth <= 0:
                     if outcome == "nested_exc":
@@ -82,6 +90,10 @@ def expected(outcome, token):
         return ("exc", KeyError)
     if outcome == "stopiter":
         return ("exc", StopIteration)
+    if outcome == "exc_base":
+        return ("exc", GeneratorExit)
+    if outcome == "exc_base_custom":
+        return ("any-exc",)
     if outcome == "surrogate":
         return ("value", ("\udc80" + token, token))
     if outcome in ("unenc_bigint", "unenc_deep", "exc_unenc_args", "exc_custom", "exc_unformattable", "bad_localref", "bad_label", "bad_arity",
